@@ -1,23 +1,28 @@
 /-
   C11 — Malformed input yields an error, never a crash or runaway resource use.   xar / flat package part (model
-  `Relic.Model.Xar`: `Open`, `Verify`, `Sign` with every `make`, `ReadAt`, `ParseInt` and int64 addition explicit).
+  `Relic.Model.Xar`: `Open`, `Verify`, `Sign` with every `make`, `ReadAt`, `ParseInt` and int64 addition explicit; `fx = true`
+  the current tree, `fx = false` the tree before the fixes a62cce4 / 5d6eee4).
 
-  On the unchanged tree `xar.Open` DOES panic: `make([]byte, toc.Signature.Size)` / `make([]byte, toc.XSignature.Size)`
-  take the size straight from the XML.  `xar_open_panic_iff` is the exact characterisation (a size that is negative or above
-  2^48 in a table of contents whose stored checksum could be read); everything else in `Open`, all of `Verify` and all of
-  `Sign` return ok or err (`xar_verify_no_new_panic`, `xar_sign_no_panic`), nothing diverges.  Allocation: `Open` asks for
-  the inflated size of the TOC (the header's UncompressedSize is never looked at) plus the two sizes from the XML before it
-  finds out that the file is shorter (`xar_open_alloc_ge`); `Sign` hands `28 + CompressedSize + Σ<size>` to `binpatch.Add`,
-  which appends one entry per 2^32−1 bytes (`xar_patch_entries_eq`, `xar_patch_entries_unbounded`).
+  Current tree: `xar_open_never_panics` (a `<size>` that is negative or larger than the file is refused before `make`),
+  `xar_verify_no_new_panic`, `xar_sign_no_panic`, `xar_open_no_diverge` — every entry point returns ok or err;
+  `xar_alloc_bounded`: what `Open` asks for is at most the declared uncompressed size (≤ 10^8, and the inflater stops one byte
+  behind it) plus sizes bounded by the file; `xar_sign_patch_entries_le`: `Sign`'s patch has at most
+  `(10^6·(3k+1)+28)/(2^32−1)+1` entries for a TOC with `k` children (1 below 1431 signature elements).
+  Tree before the fixes: `xar_open_panic_iff_orig` (exact trigger of the `makeslice` panic, F12-panic-xar.Open),
+  `xar_alloc_request_not_bounded_by_file_orig` (F13-alloc-xar.Open), `xar_patch_entries_unbounded_orig` (F13-alloc-xar.Sign).
 -/
 import Relic.Proofs.XarSign
+import Relic.Props.C01_Xar
 namespace Relic.Props.C11
 open Relic Relic.Xar
 
-/-- `make([]byte, n)` followed by `ReadAt` panics exactly when `n` is negative or above the allocation limit -/
-theorem xar_allocRead_panic_iff (site cls : String) (f : Bytes) (n off : Int) (s : String) :
-    allocRead site cls f n off = .panic s ↔ s = site ∧ (n < 0 ∨ n > maxAlloc) := by
+/-! ### the tree before fix a62cce4: `make` on a size from the XML -/
+
+/-- `make([]byte, n)` followed by `ReadAt` panicked exactly when `n` was negative or above the allocation limit -/
+theorem xar_allocRead_panic_iff_orig (site cls : String) (f : Bytes) (n off : Int) (s : String) :
+    allocRead false site cls f n off = .panic s ↔ s = site ∧ (n < 0 ∨ n > maxAlloc) := by
   unfold allocRead
+  simp only [Bool.false_eq_true, ↓reduceIte]
   split
   · rename_i h
     simp only [Res.panic.injEq]
@@ -25,19 +30,28 @@ theorem xar_allocRead_panic_iff (site cls : String) (f : Bytes) (n off : Int) (s
   · rename_i h
     cases readAt f off n.toNat <;> simp [h]
 
-/-- a `<size>` that makes `make` panic -/
+/-- the current tree tests the size first: no panic, whatever the number -/
+theorem xar_allocRead_no_panic (site cls : String) (f : Bytes) (n off : Int) (s : String) :
+    allocRead true site cls f n off ≠ .panic s := by
+  unfold allocRead
+  simp only [↓reduceIte]
+  split
+  · simp
+  · split <;> simp
+
+/-- a `<size>` that made `make` panic -/
 def xarBadSize (s : Option XSig) : Prop := ∃ x, s = some x ∧ (x.size < 0 ∨ x.size > maxAlloc)
 
 theorem xar_res_bind_panic_iff {α β} (r : Res α) (g : α → Res β) (s : String) :
     r.bind g = .panic s ↔ r = .panic s ∨ ∃ a, r = .ok a ∧ g a = .panic s := by
   cases r <;> simp [Res.bind]
 
-theorem xar_readSig_panic_iff (E : Env) (f : Bytes) (base : Int) (sg : Option XSig) (s : String) :
-    readSig E f base sg = .panic s ↔ s = "xar.Open:makeslice" ∧ xarBadSize sg := by
+theorem xar_readSig_panic_iff_orig (E : Env) (f : Bytes) (base : Int) (sg : Option XSig) (s : String) :
+    readSig false E f base sg = .panic s ↔ s = "xar.Open:makeslice" ∧ xarBadSize sg := by
   cases sg with
   | none => simp [readSig, xarBadSize]
   | some x =>
-    simp only [readSig, xarBadSize, Option.some.injEq, exists_eq_left', xar_res_bind_panic_iff, xar_allocRead_panic_iff]
+    simp only [readSig, xarBadSize, Option.some.injEq, exists_eq_left', xar_res_bind_panic_iff, xar_allocRead_panic_iff_orig]
     constructor
     · rintro (h | ⟨b, _, h⟩)
       · exact h
@@ -46,17 +60,32 @@ theorem xar_readSig_panic_iff (E : Env) (f : Bytes) (base : Int) (sg : Option XS
         · split at h <;> cases h
     · intro h; exact Or.inl h
 
-theorem xar_readXSig_panic_iff (f : Bytes) (base : Int) (sg : Option XSig) (s : String) :
-    readXSig f base sg = .panic s ↔ s = "xar.Open:makeslice" ∧ xarBadSize sg := by
+theorem xar_readXSig_panic_iff_orig (f : Bytes) (base : Int) (sg : Option XSig) (s : String) :
+    readXSig false f base sg = .panic s ↔ s = "xar.Open:makeslice" ∧ xarBadSize sg := by
   cases sg with
   | none => simp [readXSig, xarBadSize]
   | some x =>
-    simp only [readXSig, xarBadSize, Option.some.injEq, exists_eq_left', xar_res_bind_panic_iff, xar_allocRead_panic_iff]
+    simp only [readXSig, xarBadSize, Option.some.injEq, exists_eq_left', xar_res_bind_panic_iff, xar_allocRead_panic_iff_orig]
     constructor
     · rintro (h | ⟨b, _, h⟩)
       · exact h
       · cases h
     · intro h; exact Or.inl h
+
+theorem xar_readSig_no_panic (E : Env) (f : Bytes) (base : Int) (sg : Option XSig) (s : String) : readSig true E f base sg ≠ .panic s := by
+  cases sg with
+  | none => simp [readSig]
+  | some x =>
+    simp only [readSig, ne_eq, xar_res_bind_panic_iff, xar_allocRead_no_panic, false_or, not_exists, not_and]
+    intro b _
+    split
+    · simp
+    · split <;> simp
+
+theorem xar_readXSig_no_panic (f : Bytes) (base : Int) (sg : Option XSig) (s : String) : readXSig true f base sg ≠ .panic s := by
+  cases sg with
+  | none => simp [readXSig]
+  | some x => simp [readXSig, xar_res_bind_panic_iff, xar_allocRead_no_panic]
 
 theorem xar_readTicket_no_panic (f : Bytes) (fs : List XFile) (base : Int) (s : String) : readTicket f fs base ≠ .panic s := by
   unfold readTicket
@@ -65,14 +94,14 @@ theorem xar_readTicket_no_panic (f : Bytes) (fs : List XFile) (base : Int) (s : 
   · split <;> simp
   · simp
 
-/-- **xar_open_panic_iff** (the part of `Open` behind the checksum read).  `Open` panics exactly when the `<size>` of
-    `<signature>` is negative or above 2^48, or that element is fine (absent, or its bytes and certificates could be read)
-    and the `<size>` of `<x-signature>` is negative or above 2^48.  The site is the `make` in `xar.Open`. -/
-theorem xar_openRest_panic_iff (E : Env) (f : Bytes) (k : HK) (stored : Bytes) (toc : XToc) (base : Int) (n : Nat) (s : String) :
-    openRest E f k stored toc base n = .panic s ↔
-      s = "xar.Open:makeslice" ∧ (xarBadSize toc.sig ∨ ((∃ sg, readSig E f base toc.sig = .ok sg) ∧ xarBadSize toc.xsig)) := by
+/-- **xar_openRest_panic_iff_orig** (the part of `Open` behind the checksum read, before the fix).  `Open` panicked exactly when
+    the `<size>` of `<signature>` was negative or above 2^48, or that element was fine (absent, or its bytes and certificates
+    could be read) and the `<size>` of `<x-signature>` was negative or above 2^48.  The site is the `make` in `xar.Open`. -/
+theorem xar_openRest_panic_iff_orig (E : Env) (f : Bytes) (k : HK) (stored : Bytes) (toc : XToc) (base : Int) (n : Nat) (s : String) :
+    openRest false E f k stored toc base n = .panic s ↔
+      s = "xar.Open:makeslice" ∧ (xarBadSize toc.sig ∨ ((∃ sg, readSig false E f base toc.sig = .ok sg) ∧ xarBadSize toc.xsig)) := by
   unfold openRest
-  simp only [xar_res_bind_panic_iff, xar_readSig_panic_iff, xar_readXSig_panic_iff]
+  simp only [xar_res_bind_panic_iff, xar_readSig_panic_iff_orig, xar_readXSig_panic_iff_orig]
   constructor
   · rintro (⟨h1, h2⟩ | ⟨sg, hsg, (⟨h1, h2⟩ | ⟨x, _, (h | ⟨t, _, h⟩)⟩)⟩)
     · exact ⟨h1, Or.inl h2⟩
@@ -83,20 +112,21 @@ theorem xar_openRest_panic_iff (E : Env) (f : Bytes) (k : HK) (stored : Bytes) (
     · exact Or.inl ⟨h1, h2⟩
     · exact Or.inr ⟨sg, hsg, Or.inl ⟨h1, h2⟩⟩
 
-/-- **xar_open_panic_iff.**  The whole of `Open`: a panic happens only in `openRest` (header, zlib, `encoding/xml`, checksum
-    size and read return errors), i.e. exactly under the trigger of `xar_openRest_panic_iff`, once the header names a
-    supported hash, the TOC region decodes, `encoding/xml` accepts it, the checksum `<size>` is the hash size and the
-    checksum bytes could be read. -/
-theorem xar_open_panic_iff (E : Env) (f : Bytes) (s : String) :
-    (openPlan E f).final = .panic s ↔
+/-- **xar_open_panic_iff_orig.**  The whole of `Open` before fix a62cce4: a panic happened only in `openRest` (header, zlib,
+    `encoding/xml`, checksum size and read return errors), i.e. exactly under the trigger of `xar_openRest_panic_iff_orig`, once
+    the header names a supported hash, the TOC region decodes, `encoding/xml` accepts it, the checksum `<size>` is the hash
+    size and the checksum bytes could be read. -/
+theorem xar_open_panic_iff_orig (E : Env) (f : Bytes) (s : String) :
+    (openPlanOrig E f).final = .panic s ↔
       ∃ hd k root n toc stored, parseHeader f = .ok (hd, k) ∧ E.decode (regionSR f hd.hsize hd.clen) = some (root, n) ∧
         unmarshal E.num root = some toc ∧ toc.ck.size = k.size ∧
         readAt f (w64 (w64 (hd.hsize + hd.clen) + toc.ck.offset)) k.size = some stored ∧
         s = "xar.Open:makeslice" ∧
-        (xarBadSize toc.sig ∨ ((∃ sg, readSig E f (w64 (hd.hsize + hd.clen)) toc.sig = .ok sg) ∧ xarBadSize toc.xsig)) := by
+        (xarBadSize toc.sig ∨ ((∃ sg, readSig false E f (w64 (hd.hsize + hd.clen)) toc.sig = .ok sg) ∧ xarBadSize toc.xsig)) := by
   constructor
   · intro h
-    unfold openPlan at h
+    unfold openPlanOrig openPlanG at h
+    simp only [Bool.false_and, Bool.false_eq_true, ↓reduceIte] at h
     cases hp : parseHeader f with
     | error e => simp [hp, Plan.fail] at h
     | ok v =>
@@ -117,13 +147,13 @@ theorem xar_open_panic_iff (E : Env) (f : Bytes) (s : String) :
             | none => simp [hr, Plan.fail] at h
             | some stored =>
               simp only [hr] at h
-              obtain ⟨e6, e7⟩ := (xar_openRest_panic_iff E f k stored toc _ n s).mp h
+              obtain ⟨e6, e7⟩ := (xar_openRest_panic_iff_orig E f k stored toc _ n s).mp h
               exact ⟨hd, k, root, n, toc, stored, rfl, hz, hu, hsz, hr, e6, e7⟩
           · simp [hsz, Plan.fail] at h
   · rintro ⟨hd, k, root, n, toc, stored, e1, e2, e3, e4, e5, e6, e7⟩
-    unfold openPlan
-    simp only [e1, e2, e3, openBody, e4, ne_eq, not_true_eq_false, ↓reduceIte, e5]
-    exact (xar_openRest_panic_iff E f k stored toc _ n s).mpr ⟨e6, e7⟩
+    unfold openPlanOrig openPlanG
+    simp only [Bool.false_and, Bool.false_eq_true, ↓reduceIte, e1, e2, e3, openBody, e4, ne_eq, not_true_eq_false, e5]
+    exact (xar_openRest_panic_iff_orig E f k stored toc _ n s).mpr ⟨e6, e7⟩
 
 /-- a failing comparison is an error, so the run of a plan panics only where its final outcome does -/
 theorem xar_run_panic (C : Crypto) {α} (p : Plan α) (s : String) (h : p.run C = .panic s) : p.final = .panic s :=
@@ -131,17 +161,35 @@ theorem xar_run_panic (C : Crypto) {α} (p : Plan α) (s : String) (h : p.run C 
 
 example : xarBadSize (some ⟨"RSA", 20, -1, []⟩) := ⟨_, rfl, Or.inl (by decide)⟩
 
-/-! ### nothing else panics, nothing diverges -/
+/-! ### the current tree -/
 
-theorem xar_plan_bind_final {α β} (p : Plan α) (g : α → Plan β) (r : Res β) (hr : ∀ b, r ≠ .ok b) :
-    (p.bind g).final = r ↔ (∃ a, p.final = .ok a ∧ (g a).final = r) ∨
-      (match p.final with | .ok _ => False | .err e => r = .err e | .panic s => r = .panic s | .diverge => r = .diverge) := by
-  unfold Plan.bind
-  cases h : p.final with
-  | ok a => simp
-  | err e => simp [eq_comm]
-  | panic s => simp [eq_comm]
-  | diverge => simp [eq_comm]
+/-- **xar_open_never_panics.**  `Open` of the current tree returns ok or err on every input: header, the size test in front
+    of `parseTOC`, zlib / `encoding/xml` (parameters), checksum size and read, both signature blobs (sizes tested against
+    the file size before `make`), the notary ticket. -/
+theorem xar_open_never_panics (E : Env) (f : Bytes) (s : String) : (openPlan E f).final ≠ .panic s := by
+  have hrest : ∀ k stored toc base n, openRest true E f k stored toc base n ≠ .panic s := by
+    intro k stored toc base n
+    unfold openRest
+    simp [xar_res_bind_panic_iff, xar_readSig_no_panic, xar_readXSig_no_panic, xar_readTicket_no_panic]
+  unfold openPlan openPlanG
+  split
+  · simp [Plan.fail]
+  · split
+    · simp [Plan.fail]
+    · split
+      · simp [Plan.fail]
+      · split
+        · simp [Plan.fail]
+        · split
+          · simp [Plan.fail]
+          · unfold openBody
+            split
+            · simp [Plan.fail]
+            · split
+              · simp [Plan.fail]
+              · exact hrest _ _ _ _ _
+
+/-! ### both trees: nothing else panics, nothing diverges -/
 
 theorem xar_checkFileAt_final (f : Bytes) (base : Int) (r : Ref) : (∃ e, (checkFileAt f base r).final = .err e) ∨ (checkFileAt f base r).final = .ok () := by
   unfold checkFileAt
@@ -163,36 +211,12 @@ theorem xar_checkAllAt_final (f : Bytes) (base : Int) : ∀ rs, (∃ e, (checkAl
     · rw [h]; exact Or.inl ⟨e, rfl⟩
     · rw [h]; exact xar_checkAllAt_final f base rs
 
-theorem xar_checkFileStream_final (heap : Bytes) (pos : Nat) (r : Ref) :
-    (∃ e, (checkFileStream heap pos r).final = .err e) ∨ ∃ p, (checkFileStream heap pos r).final = .ok p := by
-  unfold checkFileStream
-  split
-  · exact Or.inl ⟨_, rfl⟩
-  · split
-    · exact Or.inl ⟨_, rfl⟩
-    · split
-      · exact Or.inl ⟨_, rfl⟩
-      · split
-        · exact Or.inr ⟨_, rfl⟩
-        · split
-          · exact Or.inl ⟨_, rfl⟩
-          · split
-            · exact Or.inr ⟨_, rfl⟩
-            · exact Or.inl ⟨_, rfl⟩
-
-theorem xar_checkAllStream_final (heap : Bytes) : ∀ rs pos, (∃ e, (checkAllStream heap pos rs).final = .err e) ∨ (checkAllStream heap pos rs).final = .ok ()
-  | [], _ => Or.inr rfl
-  | r :: rs, pos => by
-    simp only [checkAllStream, Plan.bind]
-    rcases xar_checkFileStream_final heap pos r with ⟨e, h⟩ | ⟨p, h⟩
-    · rw [h]; exact Or.inl ⟨e, rfl⟩
-    · rw [h]; exact xar_checkAllStream_final heap rs p
-
 /-- **xar_verify_no_new_panic.**  `Verify` (signature dispatch, `gatherDataFiles`, sort, `checkFile` per member) adds no panic
-    and no divergence to what `Open` can do: whatever `Open` + `Verify` ends in other than ok / err, `Open` ended in. -/
-theorem xar_verify_no_new_panic (E : Env) (f : Bytes) (skip : Bool) :
-    (∀ s, (verifyPlan E f skip).final = .panic s → (openPlan E f).final = .panic s) ∧
-    ((verifyPlan E f skip).final = .diverge → (openPlan E f).final = .diverge) := by
+    and no divergence to what `Open` can do: whatever `Open` + `Verify` ends in other than ok / err, `Open` ended in.  With
+    `xar_open_never_panics` / `xar_open_no_diverge`: on the current tree `Open` + `Verify` returns ok or err. -/
+theorem xar_verify_no_new_panic (fx : Bool) (E : Env) (f : Bytes) (skip : Bool) :
+    (∀ s, (verifyPlanG fx E f skip).final = .panic s → (openPlanG fx E f).final = .panic s) ∧
+    ((verifyPlanG fx E f skip).final = .diverge → (openPlanG fx E f).final = .diverge) := by
   have key : ∀ o, (∃ e, (verifyOpened f (tocRegion f) o skip).final = .err e) ∨ ∃ v, (verifyOpened f (tocRegion f) o skip).final = .ok v := by
     intro o
     unfold verifyOpened
@@ -216,8 +240,8 @@ theorem xar_verify_no_new_panic (E : Env) (f : Bytes) (skip : Bool) :
         · rw [h]; exact Or.inl ⟨e, rfl⟩
         · rw [h]; exact Or.inr ⟨_, rfl⟩
       | none => exact Or.inl ⟨_, rfl⟩
-  unfold verifyPlan Plan.bind
-  cases h : (openPlan E f).final with
+  unfold verifyPlanG Plan.bind
+  cases h : (openPlanG fx E f).final with
   | ok o =>
     simp only
     rcases key o with ⟨e, he⟩ | ⟨v, hv⟩
@@ -231,13 +255,19 @@ theorem xar_res_bind_diverge_iff {α β} (r : Res α) (g : α → Res β) :
     r.bind g = .diverge ↔ r = .diverge ∨ ∃ a, r = .ok a ∧ g a = .diverge := by
   cases r <;> simp [Res.bind]
 
-theorem xar_allocRead_no_diverge (site cls : String) (f : Bytes) (n off : Int) : allocRead site cls f n off ≠ .diverge := by
+theorem xar_allocRead_no_diverge (fx : Bool) (site cls : String) (f : Bytes) (n off : Int) : allocRead fx site cls f n off ≠ .diverge := by
   unfold allocRead
-  split
-  · simp
-  · split <;> simp
+  cases fx
+  · simp only [Bool.false_eq_true, ↓reduceIte]
+    split
+    · simp
+    · split <;> simp
+  · simp only [↓reduceIte]
+    split
+    · simp
+    · split <;> simp
 
-theorem xar_readSig_no_diverge (E : Env) (f : Bytes) (base : Int) (sg : Option XSig) : readSig E f base sg ≠ .diverge := by
+theorem xar_readSig_no_diverge (fx : Bool) (E : Env) (f : Bytes) (base : Int) (sg : Option XSig) : readSig fx E f base sg ≠ .diverge := by
   cases sg with
   | none => simp [readSig]
   | some x =>
@@ -247,7 +277,7 @@ theorem xar_readSig_no_diverge (E : Env) (f : Bytes) (base : Int) (sg : Option X
     · simp
     · split <;> simp
 
-theorem xar_readXSig_no_diverge (f : Bytes) (base : Int) (sg : Option XSig) : readXSig f base sg ≠ .diverge := by
+theorem xar_readXSig_no_diverge (fx : Bool) (f : Bytes) (base : Int) (sg : Option XSig) : readXSig fx f base sg ≠ .diverge := by
   cases sg with
   | none => simp [readXSig]
   | some x => simp [readXSig, xar_res_bind_diverge_iff, xar_allocRead_no_diverge]
@@ -260,31 +290,12 @@ theorem xar_readTicket_no_diverge (f : Bytes) (fs : List XFile) (base : Int) : r
   · simp
 
 /-- `Open` never diverges: every loop runs over the element tree or the file list (structural recursion in the model) -/
-theorem xar_open_no_diverge (E : Env) (f : Bytes) : (openPlan E f).final ≠ .diverge := by
-  have hrest : ∀ k stored toc base n, openRest E f k stored toc base n ≠ .diverge := by
+theorem xar_open_no_diverge (fx : Bool) (E : Env) (f : Bytes) : (openPlanG fx E f).final ≠ .diverge := by
+  have hrest : ∀ k stored toc base n, openRest fx E f k stored toc base n ≠ .diverge := by
     intro k stored toc base n
     unfold openRest
     simp [xar_res_bind_diverge_iff, xar_readSig_no_diverge, xar_readXSig_no_diverge, xar_readTicket_no_diverge]
-  unfold openPlan
-  split
-  · simp [Plan.fail]
-  · split
-    · simp [Plan.fail]
-    · split
-      · simp [Plan.fail]
-      · unfold openBody
-        split
-        · simp [Plan.fail]
-        · split
-          · simp [Plan.fail]
-          · exact hrest _ _ _ _ _
-
-/-- **xar_sign_no_panic.**  `Sign` up to the signature computation returns ok or err on every input: header, size limits,
-    zlib / etree (parameters), `/xar/toc`, the member check on the forward-only heap.  (`hashType.Size()` of an
-    unregistered hash and `certs[0]` of an empty chain are configuration, not input.) -/
-theorem xar_sign_no_panic (E : Env) (f : Bytes) (hk : HK) (ki : KeyInfo) :
-    (∀ s, (signPlan E f hk ki).final ≠ .panic s) ∧ (signPlan E f hk ki).final ≠ .diverge := by
-  unfold signPlan
+  unfold openPlanG
   split
   · simp [Plan.fail]
   · split
@@ -293,23 +304,170 @@ theorem xar_sign_no_panic (E : Env) (f : Bytes) (hk : HK) (ki : KeyInfo) :
       · simp [Plan.fail]
       · split
         · simp [Plan.fail]
-        · rename_i p _
-          simp only [Plan.bind]
-          rcases xar_checkAllStream_final (f.drop _) (sortRefs (eRefs E.num p.doc1)) 0 with ⟨e, h⟩ | h
-          · rw [h]; simp
-          · rw [h]; simp [Plan.pure]
+        · split
+          · simp [Plan.fail]
+          · unfold openBody
+            split
+            · simp [Plan.fail]
+            · split
+              · simp [Plan.fail]
+              · exact hrest _ _ _ _ _
+
+/-- **xar_sign_no_panic.**  `Sign` up to the signature computation returns ok or err on every input, on both trees: header,
+    size limits, zlib / etree (parameters), `/xar/toc`, the tests of the repaired `removeSigs` / `checkFiles`, the member
+    check on the forward-only heap.  (`hashType.Size()` of an unregistered hash and `certs[0]` of an empty chain are
+    configuration, not input.) -/
+theorem xar_sign_no_panic (fx : Bool) (E : Env) (f : Bytes) (hk : HK) (ki : KeyInfo) :
+    (∀ s, (signPlanG fx E f hk ki).final ≠ .panic s) ∧ (signPlanG fx E f hk ki).final ≠ .diverge := by
+  rcases signPlanG_final fx E f hk ki with ⟨so, h⟩ | ⟨e, h⟩ <;> rw [h] <;> simp
 
 /-! ### allocation -/
 
-/-- `make([]byte, n)` is executed for every `0 ≤ n ≤ 2^48` from the XML; only `ReadAt` afterwards notices that the file does
-    not hold that many bytes: the request is not bounded by the input length -/
-theorem xar_alloc_request_not_bounded_by_file (site cls : String) (f : Bytes) (n : Int) (h0 : 0 < n) (h1 : n ≤ maxAlloc)
-    (hf : (f.length : Int) < n) : allocRead site cls f n 0 = .err cls := by
+/-- before fix a62cce4 `make([]byte, n)` was executed for every `0 ≤ n ≤ 2^48` from the XML; only `ReadAt` afterwards noticed
+    that the file does not hold that many bytes: the request was not bounded by the input length (F13-alloc-xar.Open) -/
+theorem xar_alloc_request_not_bounded_by_file_orig (site cls : String) (f : Bytes) (n : Int) (h0 : 0 < n) (h1 : n ≤ maxAlloc)
+    (hf : (f.length : Int) < n) : allocRead false site cls f n 0 = .err cls := by
   unfold allocRead readAt
   have a : ¬ (n < 0 ∨ n > maxAlloc) := by omega
   have b : ¬ n.toNat = 0 := by omega
   have c : ¬ n ≤ (f.length : Int) := by omega
   simp [a, b, c]
+
+/-- now a buffer is only made for a size between 0 and the file size, and what is read into it are that many bytes of the file -/
+theorem xar_allocRead_bounded (site cls : String) (f : Bytes) (n off : Int) (b : Bytes) (h : allocRead true site cls f n off = .ok b) :
+    0 ≤ n ∧ n ≤ f.length ∧ b.length = n.toNat := by
+  unfold allocRead at h
+  simp only [↓reduceIte] at h
+  split at h
+  · cases h
+  · rename_i hn
+    cases hr : readAt f off n.toNat with
+    | none => simp [hr] at h
+    | some b' =>
+      simp only [hr, Res.ok.injEq] at h
+      subst h
+      refine ⟨by omega, by omega, ?_⟩
+      unfold readAt at hr
+      split at hr
+      · cases hr
+      · split at hr
+        · rename_i h0; simp only [Option.some.injEq] at hr; subst hr; simp [h0]
+        · split at hr
+          · rename_i hle
+            simp only [Option.some.injEq] at hr
+            subst hr
+            simp [sl]; omega
+          · cases hr
+
+/-- **xar_alloc_bounded.**  What a successful `Open` of the current tree has requested from the allocator — the inflated table
+    of contents, the checksum, both signature blobs, the notary ticket — is at most `UncompressedSize ≤ 10^8` (a constant,
+    and `decompress` stops one byte behind what was declared) `+ 64 + 2·len(file) + 10^6`.  Before the fix neither the
+    inflated size nor the two blob sizes were bounded (`xar_alloc_request_not_bounded_by_file_orig`). -/
+theorem xar_alloc_bounded (E : Env) (f : Bytes) (o : Opened) (h : (openPlan E f).final = .ok o) :
+    o.alloc ≤ 100000000 + 64 + 2 * f.length + 1000000 := by
+  unfold openPlan openPlanG at h
+  simp only [Bool.true_and] at h
+  cases hp : parseHeader f with
+  | error e => simp [hp, Plan.fail] at h
+  | ok v =>
+    obtain ⟨hd, k⟩ := v
+    simp only [hp] at h
+    by_cases hs : tocSizesOk hd f.length = true
+    · simp only [hs, Bool.not_true, Bool.false_eq_true, ↓reduceIte] at h
+      cases hz : E.decode (regionSR f hd.hsize hd.clen) with
+      | none => simp [hz, Plan.fail] at h
+      | some v =>
+        obtain ⟨root, n⟩ := v
+        simp only [hz, decide_eq_true_eq] at h
+        by_cases hin : (n : Int) > hd.ulen
+        · simp [hin, Plan.fail] at h
+        · simp only [hin, ↓reduceIte] at h
+          cases hu : unmarshal E.num root with
+          | none => simp [hu, Plan.fail] at h
+          | some toc =>
+            simp only [hu, openBody] at h
+            split at h
+            · simp [Plan.fail] at h
+            · split at h
+              · simp [Plan.fail] at h
+              · simp only [openRest] at h
+                cases h1 : readSig true E f (w64 (hd.hsize + hd.clen)) toc.sig with
+                | ok sg =>
+                  simp only [h1, Res.bind] at h
+                  cases h2 : readXSig true f (w64 (hd.hsize + hd.clen)) toc.xsig with
+                  | ok x =>
+                    simp only [h2] at h
+                    cases h3 : readTicket f toc.files (w64 (hd.hsize + hd.clen)) with
+                    | ok t =>
+                      simp only [h3, Res.ok.injEq] at h
+                      subst h
+                      simp only
+                      have hk := k.size_le
+                      have hn : n ≤ 100000000 := by
+                        have hs' := of_decide_eq_true hs
+                        simp only [maxTOCSize] at hs'
+                        omega
+                      have b1 : optLen sg.1 ≤ f.length := by
+                        cases hsig : toc.sig with
+                        | none => simp [hsig, readSig] at h1; rw [← h1]; simp [optLen]
+                        | some sx =>
+                          simp only [hsig, readSig] at h1
+                          cases ha : allocRead true "xar.Open:makeslice" "sigread" f sx.size (w64 (w64 (hd.hsize + hd.clen) + sx.offset)) with
+                          | ok b =>
+                            simp only [ha, Res.bind] at h1
+                            have := xar_allocRead_bounded _ _ f _ _ b ha
+                            split at h1
+                            · cases h1
+                            · split at h1
+                              · simp only [Res.ok.injEq] at h1; rw [← h1]; simp only [optLen, Option.map_some, Option.getD_some]; omega
+                              · cases h1
+                          | err e => simp [ha, Res.bind] at h1
+                          | panic p => simp [ha, Res.bind] at h1
+                          | diverge => simp [ha, Res.bind] at h1
+                      have b2 : optLen x ≤ f.length := by
+                        cases hsig : toc.xsig with
+                        | none => simp [hsig, readXSig] at h2; rw [← h2]; simp [optLen]
+                        | some sx =>
+                          simp only [hsig, readXSig] at h2
+                          cases ha : allocRead true "xar.Open:makeslice" "xsigread" f sx.size (w64 (w64 (hd.hsize + hd.clen) + sx.offset)) with
+                          | ok b =>
+                            simp only [ha, Res.bind, Res.ok.injEq] at h2
+                            have := xar_allocRead_bounded _ _ f _ _ b ha
+                            rw [← h2]; simp only [optLen, Option.map_some, Option.getD_some]; omega
+                          | err e => simp [ha, Res.bind] at h2
+                          | panic p => simp [ha, Res.bind] at h2
+                          | diverge => simp [ha, Res.bind] at h2
+                      have b3 : optLen t ≤ 1000000 := by
+                        unfold readTicket at h3
+                        simp only at h3
+                        split at h3
+                        · rename_i hc
+                          split at h3
+                          · cases h3
+                          · rename_i tb hr
+                            simp only [Res.ok.injEq] at h3
+                            rw [← h3]
+                            simp only [optLen, Option.map_some, Option.getD_some]
+                            unfold readAt at hr
+                            split at hr
+                            · cases hr
+                            · split at hr
+                              · simp only [Option.some.injEq] at hr; rw [← hr]; simp
+                              · split at hr
+                                · simp only [Option.some.injEq] at hr; rw [← hr]; simp [sl]; omega
+                                · cases hr
+                        · simp only [Res.ok.injEq] at h3; rw [← h3]; simp [optLen]
+                      omega
+                    | err e => simp [h3] at h
+                    | panic p => simp [h3] at h
+                    | diverge => simp [h3] at h
+                  | err e => simp [h2] at h
+                  | panic p => simp [h2] at h
+                  | diverge => simp [h2] at h
+                | err e => simp [h1, Res.bind] at h
+                | panic p => simp [h1, Res.bind] at h
+                | diverge => simp [h1, Res.bind] at h
+    · simp [hs, Plan.fail] at h
 
 theorem xar_addSplit_length (M : Nat) (hM : 0 < M) : ∀ (old off : Nat) (blob : Bytes), 0 < old →
     (Binpatch.addSplit M off old blob).length = (old - 1) / M + 1 := by
@@ -335,9 +493,9 @@ theorem xar_patch_entries_eq (ot : Int) (h : 0 < ot) (body : Bytes) :
   simp only [this, ↓reduceIte, Binpatch.build, List.foldl_cons, List.foldl_nil, Binpatch.add, List.getLast?_nil, List.nil_append]
   exact xar_addSplit_length 4294967295 (by decide) ot.toNat 0 body (by omega)
 
-/-- … and `origTotal = 28 + CompressedSize + Σ <size>` is whatever the XML says: **the number of entries (16 bytes of header
-    each, plus the loop that builds them) is not bounded by the length of the input.** -/
-theorem xar_patch_entries_unbounded (n : Nat) (hn : n < 2 ^ 30) :
+/-- … and before fix 5d6eee4 `origTotal = 28 + CompressedSize + Σ <size>` was whatever the XML said: **the number of entries
+    (16 bytes of header each, plus the loop that builds them) was not bounded by the length of the input** (F13-alloc-xar.Sign). -/
+theorem xar_patch_entries_unbounded_orig (n : Nat) (hn : n < 2 ^ 30) :
     ∃ ot : Int, 0 < ot ∧ ot < 2 ^ 63 ∧ ∀ body, n < (patchSet ot body).length := by
   refine ⟨(n : Int) * 4294967295 + 1, by omega, by omega, ?_⟩
   intro body
@@ -346,6 +504,130 @@ theorem xar_patch_entries_unbounded (n : Nat) (hn : n < 2 ^ 30) :
     have e : ((n : Int) * 4294967295 + 1).toNat - 1 = n * 4294967295 := by omega
     rw [e]
     exact Nat.mul_div_cancel n (by omega)
+  omega
+
+/-! ### the patch of the current `Sign` -/
+
+theorem xar_areasOfKey_length (N : Num) (key : String) : ∀ (ks : List Xml) (as : List (Int × Int)), areasOfKey N key ks = some as →
+    as.length ≤ ks.length ∧ ∀ a ∈ as, a.2 ≤ 1000000
+  | [], as, h => by simp [areasOfKey] at h; subst h; simp
+  | .tx _ :: rest, as, h => by
+    simp only [areasOfKey] at h
+    obtain ⟨h1, h2⟩ := xar_areasOfKey_length N key rest as h
+    exact ⟨by simp only [List.length_cons]; omega, h2⟩
+  | .el n _ ks :: rest, as, h => by
+    simp only [areasOfKey] at h
+    split at h
+    · cases h1 : areaOf N ks with
+      | none => simp [h1] at h
+      | some a1 =>
+        cases h2 : areasOfKey N key rest with
+        | none => simp [h1, h2] at h
+        | some as2 =>
+          simp only [h1, h2, Option.bind_some, Option.map_some, Option.some.injEq] at h
+          subst h
+          obtain ⟨g1, g2⟩ := xar_areasOfKey_length N key rest as2 h2
+          refine ⟨by simp only [List.length_cons]; omega, ?_⟩
+          intro a ha
+          simp only [List.mem_cons] at ha
+          rcases ha with rfl | ha
+          · exact (areaOf_nonneg N ks _ h1).2.1
+          · exact g2 a ha
+    · obtain ⟨h1, h2⟩ := xar_areasOfKey_length N key rest as h
+      exact ⟨by simp only [List.length_cons]; omega, h2⟩
+
+theorem xar_length_insertArea (a : Int × Int) : ∀ l, (insertArea a l).length = l.length + 1
+  | [] => rfl
+  | x :: xs => by
+    simp only [insertArea]
+    split
+    · rfl
+    · simp [xar_length_insertArea a xs]
+
+theorem xar_length_sortAreas (as : List (Int × Int)) : (sortAreas as).length = as.length := by
+  unfold sortAreas
+  suffices ∀ acc : List (Int × Int), (as.foldl (fun acc a => insertArea a acc) acc).length = acc.length + as.length by simpa using this []
+  induction as with
+  | nil => simp
+  | cons a as ih => intro acc; simp only [List.foldl_cons, ih, xar_length_insertArea, List.length_cons]; omega
+
+theorem xar_tile_le : ∀ (as : List (Int × Int)) (s0 s : Int), tile s0 as = some s → (∀ a ∈ as, a.2 ≤ 1000000) →
+    s ≤ s0 + 1000000 * as.length
+  | [], s0, s, h, _ => by simp [tile] at h; simp; omega
+  | a :: r, s0, s, h, hn => by
+    simp only [tile] at h
+    split at h
+    · cases h
+    · have := xar_tile_le r (s0 + a.2) s h fun x hx => hn x (List.mem_cons_of_mem _ hx)
+      have := hn a List.mem_cons_self
+      simp only [List.length_cons]
+      omega
+
+/-- the old signature area the repaired `Sign` works with is at most 10^6 bytes per signature element -/
+theorem xar_origSig_le (N : Num) (ks : List Xml) (s : Int) (h : checkSigAreas N ks = .ok s) : s ≤ 1000000 * (3 * ks.length) := by
+  unfold checkSigAreas at h
+  cases h1 : sigAreas N ks with
+  | none => simp [h1] at h
+  | some as =>
+    simp only [h1] at h
+    cases h2 : tile 0 (sortAreas as) with
+    | none => simp [h2] at h
+    | some s' =>
+      simp only [h2, Except.ok.injEq] at h
+      subst h
+      unfold sigAreas at h1
+      cases ha1 : areasOfKey N "checksum" ks with
+      | none => simp [ha1] at h1
+      | some a1 =>
+        cases ha2 : areasOfKey N "signature" ks with
+        | none => simp [ha1, ha2] at h1
+        | some a2 =>
+          cases ha3 : areasOfKey N "x-signature" ks with
+          | none => simp [ha1, ha2, ha3] at h1
+          | some a3 =>
+            simp only [ha1, ha2, ha3, Option.bind_some, Option.map_some, Option.some.injEq] at h1
+            subst h1
+            obtain ⟨l1, m1⟩ := xar_areasOfKey_length N _ ks a1 ha1
+            obtain ⟨l2, m2⟩ := xar_areasOfKey_length N _ ks a2 ha2
+            obtain ⟨l3, m3⟩ := xar_areasOfKey_length N _ ks a3 ha3
+            have := xar_tile_le _ 0 _ h2 (by
+              intro a ha
+              rw [mem_sortAreas] at ha
+              simp only [List.mem_append] at ha
+              rcases ha with (ha | ha) | ha
+              · exact m1 a ha
+              · exact m2 a ha
+              · exact m3 a ha)
+            rw [xar_length_sortAreas] at this
+            simp only [List.length_append] at this
+            omega
+
+/-- `CompressedSize` of the header (0 when there is no header) -/
+def xarHeaderClen (f : Bytes) : Int := match parseHeader f with | .ok (hd, _) => hd.clen | .error _ => 0
+
+/-- **xar_sign_patch_entries_le** (current tree).  Whatever `Sign` accepts: `origTotal ≤ 28 + 10^6 + 3·10^6·k` for a `<toc>` with
+    `k` children, so the patch set has at most `(10^6·(3k+1)+27)/(2^32−1)+1` entries — one for every TOC with fewer than
+    1431 children, and never more than the TOC's own size allows (F13-alloc-xar.Sign, entry-count part).  (`k < 10^12` keeps
+    the int64 sum from wrapping; the tree comes out of at most 10^7 inflated bytes, but the decoder is a parameter here.) -/
+theorem xar_sign_patch_entries_le (C : Crypto) (E : Env) (f : Bytes) (hk : HK) (ki : KeyInfo) (so : SignOut)
+    (h : (signPlan E f hk ki).run C = .ok so) :
+    ∃ t n tks, E.decode (region f 28 (xarHeaderClen f)) = some (t, n) ∧ tocKids t = some tks ∧
+      so.origSig ≤ 1000000 * (3 * tks.length) ∧
+      (tks.length < 1000000000000 → 0 < so.origTotal ∧ so.origTotal ≤ 28 + 1000000 + 1000000 * (3 * tks.length) ∧
+        ∀ body, (patchSet so.origTotal body).length ≤ (1000027 + 1000000 * (3 * tks.length)) / 4294967295 + 1) := by
+  obtain ⟨hd, k0, t, n, p0, tks, hph, g1, g2, _, _, hdec, _, _, htk, hck, g0, _, hso, _⟩ := C01.xar_sign_guards C E f hk ki so h
+  have hle := xar_origSig_le E.num tks so.origSig hck
+  refine ⟨t, n, tks, by simpa [xarHeaderClen, hph] using hdec, htk, hle, ?_⟩
+  intro hk3
+  have hot : so.origTotal = 28 + hd.clen + so.origSig := by
+    rw [hso]
+    simp only
+    exact w64_id (by unfold inI64; omega)
+  refine ⟨by omega, by omega, ?_⟩
+  intro body
+  rw [xar_patch_entries_eq _ (by omega)]
+  have : (so.origTotal.toNat - 1) / 4294967295 ≤ (1000027 + 1000000 * (3 * tks.length)) / 4294967295 :=
+    Nat.div_le_div_right (by omega)
   omega
 
 end Relic.Props.C11
